@@ -265,7 +265,8 @@ fn run_scenario(s: &Scenario, miri: bool, hb: Option<&Heartbeat>) -> Outcome {
                         true
                     }
                     Sig::Cancel => {
-                        ctl.cancel("cancelled-by-signaller");
+                        // the reason is the peer's text: empty, blank, the library's own watchdog wording, or descriptive
+                        ctl.cancel(["cancelled-by-signaller", "", " ", "transfer idle", "\0"][(c % 5) as usize]);
                         true
                     }
                     Sig::Advance { file } => {
